@@ -983,11 +983,34 @@ func runC08(r *Run) {
 			}
 		})
 		cs := false
+		csOfReceiver := true
 		for _, br := range branchesIn(f) {
 			if loadOfField(br.Info.Root, "Config.CaseSensitive") {
 				cs = true
+				// whose configuration? the routes of a mounted app are matched under the configuration of the app that
+				// serves the request — the receiver — not under the sub-app's own
+				base := stripValue(br.Info.Root)
+				for depth := 0; depth < 6; depth++ {
+					switch x := base.(type) {
+					case *ssa.UnOp:
+						base = x.X
+						continue
+					case *ssa.FieldAddr:
+						base = x.X
+						continue
+					case *ssa.Field:
+						base = x.X
+						continue
+					}
+					break
+				}
+				if p, isParam := base.(*ssa.Parameter); !isParam || len(f.Params) == 0 || p != f.Params[0] {
+					csOfReceiver = false
+				}
 			}
 		}
+		r.check(csOfReceiver, "ErrorHandler:folds-under-the-serving-app's-configuration", r.fpos(f), "the CaseSensitive option consulted is the receiver's",
+			"the mount prefixes are folded according to the sub-app's own CaseSensitive while the request path (and the routing of the sub-app's routes) follows the serving app's: a case-sensitive sub-app mounted at /API under a default root is not found for /api/boom, its errors go to the root's handler")
 		// … and what is compared with the prefixes is the request path — (Ctx).Path(), which routing used — not a
 		// string that also carries the query or the scheme and host of an absolute-form target
 		fromPath := n > 0
